@@ -1,8 +1,10 @@
 import StraxModel.Lemmas.ChunkAlgSplit
 import StraxModel.Lemmas.ChunkAlgChunk
 import StraxModel.Lemmas.ChunkAlgRechunk
+import StraxModel.Lemmas.ChunkAlgRuns
 /-
   Helper lemmas for property C07 (laws of chunking).  Core Lean only.
   The lemmas live in ChunkAlgSplit (rows, scan, split_array), ChunkAlgChunk (Chunk.__init__,
-  split, concatenate, merge) and ChunkAlgRechunk (diff, get_splits, Rechunker).
+  split, concatenate, merge), ChunkAlgRechunk (diff, get_splits, Rechunker) and ChunkAlgRuns
+  (annotated chunks, merge totality).
 -/
